@@ -227,8 +227,11 @@ class MiniShard(CMCReadWrite):
     def flush_buffer(self):
         """In the event that """
         while self.next_cmc in self._chunk_buffer:
-            buffer = self._chunk_buffer.pop(self.next_cmc)
-            self.append(buffer, self.next_cmc)
+            cmc = self.next_cmc
+            # Append before removing the chunk from the buffer, so that it is
+            # not lost if appending fails (I/O error of an on-disk buffer)
+            self.append(self._chunk_buffer[cmc], cmc)
+            self._chunk_buffer.pop(cmc)
 
         if any(key < self.next_cmc for key in self._chunk_buffer.keys()):
             raise ShardedIOError(f"Key exist that is less than id to check"
